@@ -201,6 +201,8 @@ func h8Scenario(n int, mask int) error {
 		w.gates[ids[i]] = make(chan struct{})
 		w.mu.Unlock()
 	}
+	// a request for a method nobody registered is dropped and must not hold up the connection
+	c.stream.in <- &Message{Metadata: &ordering.Metadata{MessageID: 99, Method: "mock.Server.Unregistered"}, Message: &mock.Request{Val: "nobody"}}
 	// all requests arrive at once
 	for i := 0; i < n; i++ {
 		c.stream.in <- &Message{Metadata: &ordering.Metadata{MessageID: ids[i], Method: "mock.Server.Test"}, Message: &mock.Request{Val: fmt.Sprint(ids[i])}}
@@ -279,6 +281,12 @@ func h8Scenario(n int, mask int) error {
 	// the other connection's handler is still the only one there, and unaffected
 	if evs := w.eventsOf(other.stream); len(evs) != 1 {
 		return fmt.Errorf("C04: events on the other connection: %v", evs)
+	}
+	// and none of this connection's replies went to the other client
+	select {
+	case m := <-other.stream.out:
+		return fmt.Errorf("C04/C05: a reply (message id %d) of this connection's handlers was written to ANOTHER client's stream", m.Metadata.GetMessageID())
+	default:
 	}
 	c.stream.in <- nil
 	select {
